@@ -119,4 +119,102 @@ theorem revert_ledger {db : Db} {L : List Addr} {B : Addr → Nat} {s s' : JStat
   have h' : BInv L B (absB db s') := by rw [revert_refines h]; exact hinv.revert _
   exact ⟨h', by rw [ledger_of_inv hn h', ledger_of_inv hn hinv]⟩
 
+
+/-! ## per-operation ledger (what the op-level Spec column of the driver prints) -/
+
+theorem bTransfer_burnt (b : BState) (src dst v : Nat) : burntJ (bTransfer b src dst v).1.j = burntJ b.j := by
+  unfold bTransfer
+  split
+  · rfl
+  · simp only []
+    split
+    · rfl
+    · simp [burntJ, burntEntry]
+
+theorem bCreateOk_burnt (b : BState) (caller a v : Nat) : burntJ (bCreateOk b caller a v).j = burntJ b.j := by
+  simp [bCreateOk, burntJ, burntEntry]
+
+theorem bSelfdestruct_burnt (b : BState) (a t : Addr) (created cancun prev : Bool) :
+    burntJ (bSelfdestruct b a t created cancun prev).j
+      = burntJ b.j + (if a = t ∧ (created ∨ !cancun) then b.f a else 0) := by
+  unfold bSelfdestruct
+  by_cases hat : a = t
+  · subst hat
+    simp only [ne_eq, not_true_eq_false, if_false, true_and]
+    split
+    · simp [burntJ, burntEntry]; omega
+    · simp
+  · simp only [ne_eq, hat, not_false_eq_true, if_true, false_and, if_false]
+    split
+    · simp [burntJ, burntEntry, hat]
+    · simp [burntJ, burntEntry]
+
+theorem burnt_of_absB {db : Db} {s : JState} {b : BState} (h : absB db s = b) : burnt s = burntJ b.j :=
+  congrArg (fun x : BState => burntJ x.j) h
+
+theorem transfer_ledger_eq {db : Db} {L : List Addr} {s s' : JState} {src dst : Addr} {v : Nat} {r : Option TransferErr}
+    (hn : L.Nodup) (hs : src ∈ L) (hd : dst ∈ L) (hok : BalOk db s)
+    (h : transfer db s src dst v = some (s', r)) : total L db s' + burnt s' = total L db s + burnt s := by
+  rw [transfer_total hn hs hd hok h, burnt_of_absB (transfer_refines hok h).1, bTransfer_burnt]; rfl
+
+theorem create_ledger_eq {db : Db} {L : List Addr} {s s' : JState} {caller a : Addr} {hs : Bool} {v spec : Nat}
+    {r : Except CreateErr Checkpoint} (hn : L.Nodup) (hc : caller ∈ L) (ha : a ∈ L)
+    (hfund : caller = a ∨ v ≤ bal db s caller)
+    (h : createAccountCheckpoint s caller a hs v spec = some (s', r)) :
+    total L db s' + burnt s' = total L db s + burnt s := by
+  rw [create_total hn hc ha hfund h]
+  obtain ⟨k1, k2, _⟩ := create_refines (db := db) h
+  cases r with
+  | ok cp => rw [burnt_of_absB (k1 rfl).2, bCreateOk_burnt]; rfl
+  | error er => rw [burnt_of_absB (k2 (by cases er <;> simp [createOutcome]))]; rfl
+
+theorem selfdestruct_ledger_eq {db : Db} {L : List Addr} {s s' : JState} {a t : Addr} {res : Bool × Bool × Bool × Bool}
+    (hn : L.Nodup) (ha : a ∈ L) (ht : t ∈ L) (hok : BalOk db s)
+    (h : selfdestruct db s a t = some (s', res)) :
+    total L db s' + burnt s' + (if a ≠ t ∧ W ≤ bal db s t + bal db s a then W else 0) = total L db s + burnt s := by
+  have h1 := selfdestruct_total hn ha ht hok h
+  obtain ⟨prev, e⟩ := selfdestruct_refines (db := db) h
+  have h2 : burnt s' = burnt s + (if a = t ∧ ((absAcct db s a).created ∨ !decide (s.spec ≥ CANCUN)) then bal db s a else 0) := by
+    rw [burnt_of_absB e, bSelfdestruct_burnt, ← crt_eq_abs db s a]; rfl
+  omega
+
+/-! ## the fee legs in closed form -/
+
+theorem deduct_exact {db : Db} {s0 s1 : JState} {spec : Nat} {e : FeeEnv} (hok : BalOk db s0)
+    (hval : Validated db s0 spec e) (h : deductCaller db s0 spec e = some s1) :
+    bal db s1 = upd (bal db s0) e.caller (bal db s0 e.caller - specDebit spec e) ∧ burnt s1 = burnt s0 := by
+  obtain ⟨c, hc, b1, j1⟩ := deductCaller_bal h
+  rw [b1, gasCost_validated hok hval hc]
+  exact ⟨rfl, by unfold burnt; rw [j1]⟩
+
+theorem reimbursement_exact {e : FeeEnv} {remaining spent refunded : Nat} (hg : GasOk e remaining spent refunded)
+    (hfit : e.gasLimit * effectiveGasPrice e < W) :
+    reimbursement e remaining refunded = specReimbursement e remaining refunded := by
+  obtain ⟨h1, h2, h3⟩ := hg
+  unfold reimbursement specReimbursement
+  rw [wadd64_eq (by omega), wmul_eq]
+  have : effectiveGasPrice e * (remaining + refunded) ≤ effectiveGasPrice e * e.gasLimit :=
+    Nat.mul_le_mul_left _ (by omega)
+  rw [Nat.mul_comm e.gasLimit] at hfit
+  omega
+
+theorem reward_exact {spec : Nat} {e : FeeEnv} {remaining spent refunded : Nat} (hg : GasOk e remaining spent refunded)
+    (hfit : e.gasLimit * effectiveGasPrice e < W) :
+    reward spec e spent refunded = specReward spec e spent refunded := by
+  obtain ⟨h1, h2, h3⟩ := hg
+  unfold reward specReward
+  rw [wsub64_eq (by omega) h2, wmul_eq]
+  have h4 : coinbaseGasPrice spec e * (spent - refunded) ≤ effectiveGasPrice e * e.gasLimit :=
+    Nat.mul_le_mul (coinbaseGasPrice_le spec e) (by omega)
+  rw [Nat.mul_comm e.gasLimit] at hfit
+  omega
+
+/-- outside the Σ < 2^256 reading: a beneficiary whose balance plus reward does not fit keeps
+2^256 - 1 (`saturating_add`), the rest of the reward is lost -/
+theorem reward_saturates {db : Db} {s s' : JState} {spec : Nat} {e : FeeEnv} {spent refunded : Nat}
+    (h : rewardBeneficiary db s spec e spent refunded = some s')
+    (hov : W ≤ bal db s e.coinbase + reward spec e spent refunded) : bal db s' e.coinbase = W - 1 := by
+  obtain ⟨b, _⟩ := rewardBeneficiary_bal h
+  rw [b, upd_same]; unfold U256.saturatingAdd; rw [if_neg (by omega)]
+
 end Revm.Proofs.Ether
